@@ -74,9 +74,7 @@ theorem aux_constPace_pos {freq per elapsed : Int} {hits : Nat}
       unfold two64 maxInt64 at *; omega
     rw [hhi, hlo, wrapU64_id (by unfold inU64; omega)]
     have hsplit : (x + freq - 1) / (two64 : Int) * (two64 : Int) + (x + freq - 1) % (two64 : Int)
-        = x + freq - 1 := by
-      have := Int.ediv_add_emod (x + freq - 1) (two64 : Int)
-      rw [Int.mul_comm]; exact this
+        = x + freq - 1 := by unfold two64; omega
     have hc := @aux_ceil x freq hf
     by_cases hbig : freq ≤ (x + freq - 1) / (two64 : Int)
     · -- the quotient would not fit 64 bits
@@ -96,7 +94,9 @@ theorem aux_constPace_pos {freq per elapsed : Int} {hits : Nat}
       have hdue0 : 0 ≤ (x + freq - 1) / freq := Int.ediv_nonneg htot (Int.le_of_lt hf)
       by_cases hov : maxInt64 < (x + freq - 1) / freq
       · rw [if_pos hov, if_pos (Or.inr hov)]
-      · rw [if_neg hov, if_neg (by omega)]
+      · have hnor : ¬ ((hits : Int) = (two64 : Int) - 1 ∨ maxInt64 < (x + freq - 1) / freq) := by
+          omega
+        rw [if_neg hov, if_neg hnor]
         have hs : wrapS64 ((x + freq - 1) / freq) = (x + freq - 1) / freq :=
           wrapS64_id (by unfold inS64 minInt64; unfold maxInt64 at *; omega)
         rw [hs]
@@ -161,7 +161,6 @@ theorem const_never_panics (freq per elapsed : Int) (hits : Nat) (hf : inS64 fre
 theorem const_never_panics_old_counterexample : constPaceOld 2 1 0 0 = .panic := by decide
 
 example : constPace 2 1 0 0 = .wait 1 := by decide
-example : constPace 446 1 5 72296151 = .wait 162095 := by decide
 
 /-! ## Overflow: stop instead of wrapping -/
 
@@ -352,8 +351,17 @@ theorem const_upper (freq per : Int) (hf : 0 < freq) (hp : 0 < per)
     · rename_i hns
       refine ⟨by omega, by omega, ?_⟩
       split at hw
-      · injection hw with hw; apply hmono; omega
-      · injection hw with hw; apply hmono; omega
+      · rename_i hle
+        have hd : (0 : Int) = d := PaceOut.wait.inj hw
+        apply hmono
+        have : 0 ≤ max d 0 := Int.le_max_right d 0
+        omega
+      · rename_i hle
+        have hd : constDue freq per n - max t 0 = d := PaceOut.wait.inj hw
+        apply hmono
+        have h1 : d ≤ max d 0 := Int.le_max_left d 0
+        have h2 : max t 0 = t := Int.max_eq_left ht0
+        omega
 
 /-- The statement's form of the bound, `n_k ≤ S(t_k) + 1`. -/
 theorem const_upper_plus_one (freq per : Int) (hf : 0 < freq) (hp : 0 < per)
